@@ -19,6 +19,9 @@ def cont (d : Dag) (f : Nat) : Except Err State → Except Err State
   | .error e => .error e
   | .ok s => loop d f s
 
+theorem not_isSome_of_mem {m : Memo} {i : Nat} (h : mem m i = false) : ¬ ((List.lookup i m).isSome = true) := by
+  unfold mem at h; rw [h]; simp
+
 theorem mem_cons (m : Memo) (c : Nat) (n : INode) (j : Nat) :
     mem ((c, n) :: m) j = (j == c || mem m j) := by
   unfold mem
@@ -75,7 +78,6 @@ theorem loop_succ (d : Dag) (f : Nat) (s : State) (cur : Nat) (rest : List Nat) 
 
 theorem loop_done (d : Dag) (f : Nat) (s : State) (h : s.stack = []) : loop d (f + 1) s = .ok s := by
   rw [loop, h]
-  rfl
 
 theorem newAtom_err {c : Counters} {n : Nat} {e : Err} (h : c.newAtom n = .error e) : AllocErr e := by
   unfold Counters.newAtom at h
@@ -176,14 +178,22 @@ theorem handle_one {d : Dag} {s : State} {cur : Nat} {rest : List Nat} (hst : s.
     (hfin : ∀ s', step d s cur rest = .ok s' →
       (mem s.nodeToInterned cur = true ∧ s'.stack = rest ∧ s'.nodeToInterned = s.nodeToInterned) ∨
       (mem s.nodeToInterned cur = false ∧ s'.stack = rest ∧ ∃ n, s'.nodeToInterned = (cur, n) :: s.nodeToInterned)) :
-    ∃ o, (∀ f, loop d (1 + f) s = cont d f o) ∧ Handled d s cur rest 1 o := by
+    ∃ o, (∀ f, loop d (1 + f) s = cont d f o) ∧ Handled d s cur rest 1 o ∧
+      (∀ s', o = .ok s' → mem s.nodeToInterned cur = false →
+        Um d.size s'.nodeToInterned + 1 = Um d.size s.nodeToInterned) := by
   cases hstep : step d s cur rest with
   | error e =>
-    refine ⟨.error e, ?_, step_err hc hstep, by omega⟩
+    refine ⟨.error e, ?_, ⟨step_err hc hstep, by omega⟩, fun s' h => by cases h⟩
     intro f; rw [Nat.add_comm, loop_succ d f s cur rest hst, hstep]; rfl
   | ok s' =>
-    refine ⟨.ok s', ?_, ?_⟩
+    refine ⟨.ok s', ?_, ?_, ?_⟩
     · intro f; rw [Nat.add_comm, loop_succ d f s cur rest hst, hstep]; rfl
+    rotate_left
+    · intro s'' h hm
+      cases h
+      rcases hfin s' hstep with ⟨hm', _, _⟩ | ⟨_, _, n, hn⟩
+      · rw [hm] at hm'; cases hm'
+      · rw [hn]; exact (Um_cons s.nodeToInterned cur n hm d.size).1 hc
     · rcases hfin s' hstep with ⟨hm, hs, hn⟩ | ⟨hm, hs, n, hn⟩
       · refine ⟨hs, by rw [hn]; exact hm, ?_, ?_, ?_⟩
         · intro j hj; rw [hn]; exact hj
@@ -216,7 +226,7 @@ theorem handle {d : Dag} (wf : d.WF) : ∀ (i : Nat) (s : State) (rest : List Na
         | error e =>
           exfalso
           unfold step at hs
-          have : ¬ ((List.lookup i s.nodeToInterned).isSome = true) := by simpa [mem] using hmi
+          have : ¬ ((List.lookup i s.nodeToInterned).isSome = true) := not_isSome_of_mem hmi
           rw [if_neg this, hd] at hs
           dsimp only at hs
           split at hs
@@ -229,7 +239,7 @@ theorem handle {d : Dag} (wf : d.WF) : ∀ (i : Nat) (s : State) (rest : List Na
           · exfalso
             -- a finishing step needs both children interned
             unfold step at hs
-            have : ¬ ((List.lookup i s.nodeToInterned).isSome = true) := by simpa [mem] using hmi
+            have : ¬ ((List.lookup i s.nodeToInterned).isSome = true) := not_isSome_of_mem hmi
             rw [if_neg this, hd] at hs
             dsimp only at hs
             split at hs
@@ -287,8 +297,7 @@ theorem handle {d : Dag} (wf : d.WF) : ∀ (i : Nat) (s : State) (rest : List Na
                 k3 + 3 * Um d.size s3.nodeToInterned ≤ 3 * Um d.size s2.nodeToInterned + 1 := by
           by_cases hmr : mem s.nodeToInterned r = true
           · refine ⟨0, .ok s2, fun f => by simp [cont], ?_⟩
-            simp only
-            refine ⟨by rw [hst2, hmr]; simp, hmono2 r hmr, fun j hj => hj, fun j _ => rfl, by omega⟩
+            exact ⟨by rw [hst2, hmr]; simp, hmono2 r hmr, fun j hj => hj, fun j _ => rfl, by omega⟩
           · have hmr' : mem s.nodeToInterned r = false := by simpa using hmr
             obtain ⟨k3, o3, _, hrun, hh⟩ := ih r hr s2 (i :: rest) (by rw [hst2, hmr']; simp) (by omega)
             exact ⟨k3, o3, hrun, by cases o3 <;> simpa [Handled] using hh⟩
@@ -304,6 +313,7 @@ theorem handle {d : Dag} (wf : d.WF) : ∀ (i : Nat) (s : State) (rest : List Na
           rw [hrun2 (k3 + f)]
           simp only [cont]
           rw [hrun3 f]
+          rfl
         | ok s3 =>
           simp only at hh3
           obtain ⟨hst3, hmr3, hmono3, hframe3, hpot3⟩ := hh3
@@ -320,7 +330,7 @@ theorem handle {d : Dag} (wf : d.WF) : ∀ (i : Nat) (s : State) (rest : List Na
             · right; exact h1
             · rw [hd] at hd'; cases hd'
               exact absurd ⟨hml3, hmr3⟩ hnot'
-          obtain ⟨o4, hrun4, hh4⟩ := handle_one hst3 hi hfin
+          obtain ⟨o4, hrun4, hh4, hdec4⟩ := handle_one hst3 hi hfin
           have hu3 : 1 ≤ Um d.size s3.nodeToInterned := Um_pos _ i _ hmi3 hi
           refine ⟨1 + k2 + k3 + 1, o4, by omega, ?_, ?_⟩
           · intro f
@@ -332,6 +342,7 @@ theorem handle {d : Dag} (wf : d.WF) : ∀ (i : Nat) (s : State) (rest : List Na
             rw [hrun3 (1 + f)]
             simp only [cont]
             rw [hrun4 f]
+            cases o4 <;> rfl
           · cases o4 with
             | error e =>
               simp only [Handled] at hh4 ⊢
@@ -339,6 +350,7 @@ theorem handle {d : Dag} (wf : d.WF) : ∀ (i : Nat) (s : State) (rest : List Na
             | ok s4 =>
               simp only [Handled] at hh4 ⊢
               obtain ⟨h1, h2, h3, h4, h5⟩ := hh4
+              have hdec := hdec4 s4 rfl hmi3
               refine ⟨h1, h2, ?_, ?_, by omega⟩
               · intro j hj; exact h3 j (hmono3 j (hmono2 j hj))
               · intro j hj
@@ -352,7 +364,7 @@ theorem handle {d : Dag} (wf : d.WF) : ∀ (i : Nat) (s : State) (rest : List Na
         · left; exact h1
         · right; exact h1
         · exact absurd ⟨hm, l', r', hd', hnot'⟩ hexp
-      obtain ⟨o, hrun, hh⟩ := handle_one hst hi hfin
+      obtain ⟨o, hrun, hh, _⟩ := handle_one hst hi hfin
       refine ⟨1, o, Nat.le_refl _, hrun, ?_⟩
       cases o with
       | error e => simp only [Handled] at hh ⊢; exact ⟨hh.1, by omega⟩
@@ -360,7 +372,7 @@ theorem handle {d : Dag} (wf : d.WF) : ∀ (i : Nat) (s : State) (rest : List Na
 
 /-- the loop started by `internTreeLimited` ends with an empty stack or an allocator-limit error -/
 theorem loop_terminates {d : Dag} (wf : d.WF) (root : Nat) (hroot : root < d.size) (s0 : State)
-    (hst : s0.stack = [root]) (hm : s0.nodeToInterned = []) :
+    (hst : s0.stack = [root]) :
     (∃ e, AllocErr e ∧ loop d (fuelFor d) s0 = .error e) ∨
     (∃ s', loop d (fuelFor d) s0 = .ok s' ∧ s'.stack = []) := by
   obtain ⟨k, o, hk, hrun, hh⟩ := handle wf root s0 [] hst hroot
